@@ -6,7 +6,7 @@ A spec is
 country = {'code','cur','region':bool,'gov':None|'CONS'|'TRECB'|'GOLD','hh':None|'HH'|'HHX','cap':bool,
            'bus':None|'FM'|'MO','margin':0.0|0.1,'tax':None|rate,'mon':bool,'dep':None|'const'|'rate',
            'a1','a2','G':path-id,'r':path-id,'ic':bool}
-link    = ['gift', src_country, dst_country, inc_src, inc_dst] | ['import', supplier_country, market_country(, 'foreign-residual')]
+link    = ['gift', src_country, dst_country, inc_src, inc_dst] | ['import', supplier_country, market_country(, 'foreign-residual' | 'zero-quota')]
 
 build(spec, order=None, names=None) declares the sectors of each country in the given order (default: canonical),
 then runs the fixed tail of post-declaration calls.
@@ -383,6 +383,10 @@ def _tail(b, names):
             if len(l) > 3 and l[3] == 'foreign-residual':
                 market.AddSupplier(home, 'MU*{0}'.format(hh.GetVariableName('INC')))
                 market.AddSupplier(supplier)
+            elif len(l) > 3 and l[3] == 'zero-quota':
+                # the residual supplier is registered first; the foreign producer gets a quota of zero, given as a number
+                market.AddSupplier(home)
+                market.AddSupplier(supplier, 0.0)
             else:
                 market.AddSupplier(supplier, 'MU*{0}'.format(hh.GetVariableName('INC')))
                 market.AddSupplier(home)
@@ -583,6 +587,7 @@ def _link_devs(pairs):
         devs.append(('import:%s>%s' % (a, b), (lambda l: (lambda s: _add_link(s, l)))(['import', a, b])))
         # the home producer gets the fixed share and the FOREIGN producer is the market's residual supplier
         devs.append(('import-residual:%s>%s' % (a, b), (lambda l: (lambda s: _add_link(s, l)))(['import', a, b, 'foreign-residual'])))
+        devs.append(('import-zero-quota:%s>%s' % (a, b), (lambda l: (lambda s: _add_link(s, l)))(['import', a, b, 'zero-quota'])))
     return devs
 
 
